@@ -261,7 +261,9 @@ def obligations():
         Ob('O5.1-d1-d0', 'resolver vs lexical scoping rule: { E; E0 } with E of depth 1 and E0 a leaf or let', ob_resolve, ('thorough',), 20,
            dict(depth=1, names=('x', 'y'), exprs=E1, leaves=['EPath', 'EInt'], pats=['PVar', 'PWild'], top='{ E; E0 }', second_depth=0)),
         Ob('O5.1-d2-use', 'resolver vs lexical scoping rule: { E; use } with E of depth 2 over scope-forming constructors', ob_resolve, ('thorough',), 100,
-           dict(depth=2, names=('x', 'y'), exprs=['EPath', 'ELet', 'EIf', 'EMatch', 'EClosure'], leaves=['EPath'], pats=['PVar'], top='{ E; use }', second_depth=-1)),
+           dict(depth=2, names=('x',), exprs=['EPath', 'ELet', 'EIf', 'EMatch', 'EClosure'], leaves=['EPath'], pats=['PVar'], top='{ E; use }', second_depth=-1)),
+        Ob('O5.1-d2-use-xy', 'resolver vs lexical scoping rule: { E; use } with E of depth 2 over let / closure, two names', ob_resolve, ('thorough',), 100,
+           dict(depth=2, names=('x', 'y'), exprs=['EPath', 'ELet', 'EClosure'], leaves=['EPath'], pats=['PVar'], top='{ E; use }', second_depth=-1)),
     ]
 META = {
     'level': 'other',
